@@ -6,7 +6,7 @@ import itertools
 from fractions import Fraction
 
 from .. import dag
-from ..pe import PE, PERaise, Opaque
+from ..pe import PE, PERaise, Opaque, Obj
 from ..src import load, stmt_text
 
 LEVEL = "proof"
@@ -187,23 +187,68 @@ def run(chk):
         diffs = _diff(out, want)
         chk.decide(not diffs, "archive-patches", f"{modname}.update_operator", f"operator patch: {diffs[:4]}",
                    where=src.func(f"{modname}.update_operator").where, instance=f"v{ver} operator", how="PE vs mapping table")
-    # routing
+    # routing: which patch an archive of a given (library version, data version) goes through - evaluated on a model file system with
+    # recording patches (the patches themselves are decided above)
+    from .. import fsmodel
+
     ml = src.func("eko.io.metadata.Metadata.load")
-    t = stmt_text(ml.node)
-    chk.decide("version.minor == 13" in t and "v1.update_metadata(paths, raw)" in t and "version.minor == 14" in t and "v2.update_metadata(paths, raw)" in t,
-               "version-routing", ml.qname, "metadata of 0.13 / 0.14 archives is no longer patched by v1 / v2", where=ml.where, instance="metadata")
+    mdc = src.cls("eko.io.metadata.Metadata")
     ek = src.cls("eko.io.struct.EKO")
-    for prop, fn in (("theory_card", "update_theory"), ("operator_card", "update_operator")):
+
+    def ver(p_, a, k):
+        v = Opaque()
+        parts = [int(x) for x in str(a[0]).split(".")[:3] if x.isdigit()]
+        v.major, v.minor, v.micro = (parts + [0, 0, 0])[:3]
+        return v
+
+    for version, dv, want in (("0.13.5", 1, "v1"), ("0.14.2", 1, "v2"), ("0.14.6", 2, None), ("0.15.1", 3, None)):
+        fs = fsmodel.FS()
+        pe2 = PE(src)
+        fsmodel.install(pe2, fs)
+        pe2.ext["packaging.version.parse"] = ver
+        calls = []
+        for m_ in ("v1", "v2"):
+            pe2.overrides[f"eko.io.{m_}.update_metadata"] = lambda p_, a, k, m_=m_: calls.append(m_) or dict(a[-1], patched=m_)
+        pe2.overrides["eko.io.dictlike.DictLike.from_dict"] = lambda p_, a, k: Obj(mdc)
+        fs.path("/a").mkdir()
+        fs.write("/a/metadata.yaml", ("yaml", {"version": version, "data_version": dv, "origin": [1, 4], "xgrid": {}}))
+        inst = f"library {version}, data version {dv}"
+        try:
+            pe2.apply(pe2.getattr(src_cls_ref(src, mdc), "load"), [fs.path("/a")], {})
+            got = calls
+        except PERaise as e:
+            got = f"raises {e}"
+        chk.decide(got == ([want] if want else []), "version-routing", ml.qname, f"metadata of an archive written by {inst} goes through "
+                   f"{got}; required {[want] if want else 'no patch'}", where=ml.where, instance=f"metadata,{version},{dv}", how="PE on a model file system")
+    for prop, fn, ccls in (("theory_card", "update_theory", "eko.io.runcards.TheoryCard"), ("operator_card", "update_operator", "eko.io.runcards.OperatorCard")):
         f = ek.methods[prop]
-        routes = {}
-        for node in ast.walk(f.node):
-            if isinstance(node, ast.If) and "data_version" in ast.unparse(node.test):
-                vers = [c.value for c in ast.walk(node.test) if isinstance(c, ast.Constant) and isinstance(c.value, int)]
-                mods = {ast.unparse(c.func) for c in ast.walk(node) if isinstance(c, ast.Call) and ast.unparse(c.func).endswith(fn)}
-                for v in vers:
-                    routes[v] = mods
-        chk.decide(routes == {1: {f"v1.{fn}"}, 2: {f"v2.{fn}"}}, "version-routing", f.qname, f"data versions are routed as {routes}; required "
-                   f"1 -> v1.{fn}, 2 -> v2.{fn}", where=f.where, instance=prop)
+        for dv, want in ((1, "v1"), (2, "v2"), (3, None)):
+            fs = fsmodel.FS()
+            pe2 = PE(src)
+            fsmodel.install(pe2, fs)
+            calls = []
+            for m_ in ("v1", "v2"):
+                pe2.overrides[f"eko.io.{m_}.{fn}"] = lambda p_, a, k, m_=m_: calls.append(m_) or {"patched": m_}
+            pe2.overrides["eko.io.dictlike.DictLike.from_dict"] = lambda p_, a, k: ("CARD", a[-1])
+            fs.path("/a").mkdir()
+            md = Obj(mdc)
+            md.attrs.update(_path=fs.path("/a"), data_version=dv, version="0.0.0", origin=(1, 4), xgrid="XG")
+            e = Obj(ek)
+            e.attrs.update(metadata=md)
+            paths = pe2.getattr(e, "paths")
+            for nm in ("theory_card", "operator_card"):
+                fs.write(str(pe2.getattr(paths, nm)), ("yaml", {"card": nm}))
+            inst = f"{prop}, data version {dv}"
+            try:
+                card = pe2.getattr(e, prop)
+                got = calls
+                raw = card[1] if isinstance(card, tuple) else None
+                okc = (raw == {"patched": want}) if want else (raw == {"card": prop})
+            except PERaise as ex:
+                got, okc = f"raises {ex}", False
+            chk.decide(got == ([want] if want else []) and okc, "version-routing", f.qname, f"{inst}: the card goes through {got} and is built from "
+                       f"{raw if not isinstance(got, str) else None}; required {[want] if want else 'no patch'} and the patched (resp. stored) dictionary",
+                       where=f.where, instance=f"{prop},{dv}", how="PE on a model file system")
     chk.note(cases=n, files=["src/eko/io/runcards.py", "src/eko/io/v1.py", "src/eko/io/v2.py", "src/eko/io/metadata.py", "src/eko/io/struct.py"])
     chk.explanation = "Converters evaluated on symbolic legacy dictionaries and compared with the mapping table."
 
@@ -240,3 +285,9 @@ def _diff(got, want, path=""):
         if k not in want:
             out.append(f"{path}{k} unexpected (= {got[k]})")
     return out
+
+
+def src_cls_ref(src, cls):
+    from ..pe import ClassRef
+
+    return ClassRef(cls)
